@@ -1,13 +1,14 @@
 (* C10 — literal content is preserved exactly: leaves are emitted from their own text; the one place
    where content can change is post-processing (known finding F4, witnessed below). *)
-From TV Require Import Conv Format Render RenderProofs SeqProofs ConvProofs Post PostProofs.
+From TV Require Import Conv Format Render RenderProofs SeqProofs ConvProofs Post PostProofs StripLit Survive.
 
 Section Full.
   Variable parse : str -> tree.
   Variable literals : tree -> list str.
   Variable swidth : str -> N.
   (* FALSE of the faithful model (see C10_refuted): blanks before a line feed inside a string or raw
-     block are removed by strip_trailing_whitespace *)
+     block are removed by strip_trailing_whitespace; (4) and (5) below show that this is the only way
+     post-processing touches a literal *)
   Definition C10_full : Prop :=
     forall cfg src out n,
       erroneous (parse src) = false -> format_source swidth cfg (parse src) = FOk out n ->
@@ -46,3 +47,33 @@ Theorem C10_refuted :
             = FOk [35;108;101;116;32;115;32;61;32;34;97;10;98;34;10] n.
 Proof. eexists. vm_compute. reflexivity. Qed.
 Print Assumptions C10_refuted.
+
+(* (4) post-processing leaves a piece of the rendered text alone when none of its line feeds is preceded, inside
+   the piece, by a White_Space character and it does not end with one (a string ends with its quote, raw text with
+   its fence): the converse of C10_refuted *)
+Theorem C10_clean_text_survives_postprocessing :
+  forall pre v post, clean v -> ends_solid v ->
+    exists pre' post', strip (pre ++ v ++ post) = pre' ++ v ++ post'.
+Proof. exact strip_keeps_clean. Qed.
+Check C10_clean_text_survives_postprocessing :
+  forall pre v post, clean v -> ends_solid v ->
+    exists pre' post', strip (pre ++ v ++ post) = pre' ++ v ++ post'.
+Print Assumptions C10_clean_text_survives_postprocessing.
+
+(* (5) end to end over the model: every text atom the renderer emitted occurs in the formatter's output with only
+   the White_Space before its own line feeds removed, and unchanged when it has none *)
+Theorem C10_emitted_text_reaches_output :
+  forall swidth cfg t out n,
+    format_source swidth cfg t = FOk out n ->
+    exists d es,
+      convert_root swidth cfg t = Ok (d, n) /\ render_events (max_width cfg) d = Some es /\
+      forall v, In (EText v) es -> ends_solid v ->
+        (exists pre post, out = pre ++ trim_line_ends v ++ post) /\
+        (clean v -> exists pre post, out = pre ++ v ++ post).
+Proof. exact emitted_text_survives. Qed.
+Print Assumptions C10_emitted_text_reaches_output.
+
+(* non-vacuity: the string literal "a⏎b" satisfies both hypotheses; "a  ⏎b" (C10_refuted) is not clean *)
+Example C10_example_clean :
+  clean [34;97;10;98;34] /\ ends_solid [34;97;10;98;34] /\ clean_b [34;97;32;32;10;98;34] = false.
+Proof. split; [apply clean_b_spec; reflexivity|split; [split; [discriminate|reflexivity]|reflexivity]]. Qed.
